@@ -9,14 +9,30 @@ open Rtsp.Facts.Ledger
 /-- a status is one of the two the server pairs with an error -/
 def errStatus (n : Nat) : Bool := n == statusBadRequest || n == statusSessionNotFound
 
-/-- the status says whether the request failed -/
+/-- the status of a verdict says whether the request failed -/
 abbrev Coherent (v : Verdict) : Prop := v.2.1 = errStatus v.1
 
 theorem coh_bad : Coherent bad := by decide
-theorem coh_ok (a : Action) : Coherent (statusOK, false, a) := by decide
-theorem coh_461 (a : Action) : Coherent (statusUnsupportedTransport, false, a) := by decide
-theorem coh_404 (a : Action) : Coherent (statusNotFound, false, a) := by decide
-theorem coh_501 (a : Action) : Coherent (statusNotImplemented, false, a) := by decide
+theorem coh_ok (a : Action) : Coherent (statusOK, false, a) := rfl
+theorem coh_461 (a : Action) : Coherent (statusUnsupportedTransport, false, a) := rfl
+theorem coh_404 (a : Action) : Coherent (statusNotFound, false, a) := rfl
+theorem coh_501 (a : Action) : Coherent (statusNotImplemented, false, a) := rfl
+
+theorem setupMedia_coherent (st : State) (s : Sess) (r : Req) (t : Tr) (play : Bool) (proto : Proto) :
+    Coherent (setupMedia st s r t play proto) := by
+  generalize h : setupMedia st s r t play proto = v
+  unfold setupMedia at h
+  repeat' split at h
+  all_goals subst h
+  all_goals first | exact coh_bad | exact coh_ok _
+
+theorem setupChecks_coherent (st : State) (s : Sess) (r : Req) (t : Tr) (play : Bool) (proto : Proto) :
+    Coherent (setupChecks st s r t play proto) := by
+  generalize h : setupChecks st s r t play proto = v
+  unfold setupChecks at h
+  repeat' split at h
+  all_goals subst h
+  all_goals first | exact coh_bad | exact coh_461 _ | exact coh_404 _ | exact setupMedia_coherent ..
 
 theorem decideSetup_coherent (st : State) (c : Conn) (s : Sess) (r : Req) :
     Coherent (decideSetup st c s r) := by
@@ -24,7 +40,7 @@ theorem decideSetup_coherent (st : State) (c : Conn) (s : Sess) (r : Req) :
   unfold decideSetup at h
   repeat' split at h
   all_goals subst h
-  all_goals first | exact coh_bad | exact coh_ok _ | exact coh_461 _ | exact coh_404 _
+  all_goals first | exact coh_bad | exact coh_461 _ | exact setupChecks_coherent ..
 
 theorem decideInSession_coherent (st : State) (c : Conn) (s : Sess) (r : Req) :
     Coherent (decideInSession st c s r) := by
@@ -32,6 +48,36 @@ theorem decideInSession_coherent (st : State) (c : Conn) (s : Sess) (r : Req) :
   unfold decideInSession at h
   repeat' split at h
   all_goals subst h
-  all_goals first | exact coh_bad | exact coh_ok _ | exact coh_501 _ | exact decideSetup_coherent st c s r
+  all_goals first | exact coh_bad | exact coh_ok _ | exact coh_501 _ | exact decideSetup_coherent ..
+
+/-- status / error of a request handled inside a session -/
+theorem inSession_coherent (st : State) (c : Conn) (r : Req) (create : Bool) :
+    (inSession st c r create).2.2.1 = errStatus (inSession st c r create).2.1 := by
+  generalize h : inSession st c r create = v
+  unfold inSession at h
+  split at h
+  · subst h
+    rename_i status hres
+    unfold resolve at hres
+    repeat' split at hres
+    all_goals first | (injection hres with hres; subst hres; rfl) | (exact absurd hres (by simp))
+  · simp only at h
+    split at h <;> subst h <;> exact decideInSession_coherent ..
+
+/-- **status and error flag agree**: `handleRequestInner` returns an error exactly with 400 and 454 -/
+theorem handleRequest_coherent (st : State) (c : Conn) (r : Req) :
+    (handleRequest st c r).2.2.1 = errStatus (handleRequest st c r).2.1 := by
+  generalize h : handleRequest st c r = v
+  unfold handleRequest at h
+  simp only at h
+  repeat' split at h
+  all_goals subst h
+  all_goals first | rfl | exact inSession_coherent ..
+
+/-- the outputs of a request: the response comes first -/
+theorem rtspInput_req_head (st : State) (c : Conn) (r : Req) :
+    ∃ rest, (rtspInput st c (.req r)).2 = Out.rtsp c.id (handleRequest st c r).2.1 :: rest := by
+  simp only [rtspInput]
+  split <;> exact ⟨_, rfl⟩
 
 end Rtsp.Ledger
